@@ -215,6 +215,20 @@ def run_job(job, workdir):
     cls = getattr(mod, t[1])
     if 'statics' in want:
         res['statics'] = statics(mod, t)
+    if 'fresh' in want:
+        # messages nobody touched: one encoded '<' then '>', another one '>' then '<' (same process, same classes)
+        fr = {}
+        for tag, order in (('a', '<>'), ('b', '><')):
+            try:
+                msg = cls()
+                for e in order:
+                    try:
+                        fr[tag + e] = bytearray(msg.encode(e)).hex()
+                    except BaseException as ex:  # noqa
+                        fr[tag + e] = 'EXC:' + exc_name(ex)
+            except BaseException as ex:  # noqa
+                fr[tag] = 'EXC:' + exc_name(ex)
+        res['fresh'] = fr
     res['values'] = []
     for vj in job.get('values', []):
         v = S.value_from_json(vj)
